@@ -94,3 +94,16 @@ class NocaseDict(HashableMixin, KeyableByMixin('name'), _NocaseDict):
     def pop(self, key, default=_OMITTED):
         self._check_unnamed_key(key)
         return super().pop(key, default)
+
+    def copy(self):
+        """
+        Return a copy of the dictionary, as an object of the same class (so
+        that the copy is hashable, keyable by name and has the same setting
+        for 'allow_unnamed_keys' as the original).
+
+        This is a middle-deep copy, as described for the base class.
+        """
+        result = type(self)()
+        result._data = self._data.copy()  # pylint: disable=protected-access
+        result.allow_unnamed_keys = self.allow_unnamed_keys
+        return result
